@@ -446,7 +446,12 @@ func init() {
 			if tier == "thorough" {
 				depth = 5
 			}
-			return []Job{c14Job("empty", base, depth), c14Job("foreign", base, depth), c14Job("stale", base, depth), c14PortsJob(base)}
+			xd := 2
+			if tier == "thorough" {
+				xd = 3
+			}
+			return []Job{c14Job("empty", base, depth), c14Job("foreign", base, depth), c14Job("stale", base, depth), c14PortsJob(base),
+				c14XCheckJob("empty", base, xd), c14XCheckJob("foreign", base, xd), c14XCheckJob("stale", base, xd)}
 		}})
 	replayers["C14"] = replayDescOnly
 	_ = json.Marshal
